@@ -2,6 +2,7 @@ package main
 
 import (
 	"fmt"
+	"go/token"
 	"strings"
 
 	"golang.org/x/tools/go/ssa"
@@ -10,63 +11,31 @@ import (
 func init() {
 	register(&propDef{
 		id: "C09", run: runC09, minOblig: 3,
-		explanation: "Decides the nonce handling and the block-counter bookkeeping of the Salsa20 packages (not the Salsa20 core arithmetic, and nothing inside the amd64 assembly). (nonce dispatch) salsa20.XORKeyStream is interpreted (slices by length) for nonce lengths 0, 8, 12, 16, 24, 32, input lengths 0, 1, 64 and a shorter / equal / longer output: it panics exactly for an output shorter than the input or a nonce that is neither 8 nor 24 bytes; with 8 bytes the 16-byte counter block is nonce | 8 zero bytes under the caller's key; with 24 bytes the key is replaced by HSalsa20(key, nonce[0:16], sigma) written into a fresh 32-byte array and the counter block is nonce[16:24] | 8 zero bytes; salsa.XORKeyStream then receives (out, in, that block, that key). (64-bit counter carry, portable path) genericXORKeyStream is interpreted with the eight counter bytes as tracked state, for starting counters 0, 0xff, 0xffff, 2^32-1, 2^32, 2^40-1, 2^64-2, 2^64-1 and 1..3 full blocks with and without a partial tail: block j is produced by core(&block, counter + j), the little-endian counter in bytes 8..15 is incremented by exactly one after every full block including every carry chain (mod 2^64), the nonce bytes 0..7 are not touched, the caller's counter array is not written (value copy), each full block XORs 64 bytes and the tail XORs exactly the remaining bytes. The amd64 wrapper forwards (out, in, len(in), counter, key) in the assembly routine's parameter order and returns early for an empty input. NOT decided: Salsa20/20, HSalsa20 and Salsa20/8 core values; the counter handling inside salsa20_amd64.s; agreement of assembly and portable paths.",
+		explanation: "Decides the nonce handling and the block-counter bookkeeping of the Salsa20 packages (not the Salsa20 core arithmetic, and nothing inside the amd64 assembly). All three rules interpret the code (slices by length and offset, small local byte arrays byte by byte, same-package helpers followed, copy / encoding/binary / subtle.XORBytes / min modelled), so they read the same however the code is factored or its locals are named. (nonce dispatch) salsa20.XORKeyStream is interpreted with every nonce byte as a distinct abstract value for nonce lengths 0, 8, 12, 16, 24, 32, input lengths 0, 1, 64 and a shorter / equal / longer output: it panics exactly for an output shorter than the input or a nonce that is neither 8 nor 24 bytes; otherwise salsa.XORKeyStream receives (out, in, block, key) where, byte for byte, the 16-byte block is nonce[0:8] | 8 zero bytes with the caller's key for 8 bytes, and nonce[16:24] | 8 zero bytes for 24 bytes with the key being the 32 bytes that HSalsa20 wrote when it was given nonce[0:16], the caller's key and salsa.Sigma. (64-bit counter carry, portable path) genericXORKeyStream is interpreted with the sixteen bytes of the caller's counter block as tracked state, for starting counters 0, 0xff, 0xffff, 2^32-1, 2^32, 2^40-1, 2^64-2, 2^64-1 and 0..3 full blocks with and without a partial tail: the j-th call of the block function (identified by its signature) is given a 16-byte block whose bytes 0..7 are the caller's nonce bytes and whose bytes 8..15 are the little-endian value counter + j (mod 2^64, every carry chain), a local 64-byte key-stream buffer and the caller's key; output byte p is written exactly once, as in[p] XOR key-stream byte p mod 64, after block p/64 and before block p/64+1 was generated (byte stores or subtle.XORBytes); exactly ceil(n/64) blocks are generated; the caller's counter array holds its original bytes afterwards. What the local counter copy holds after the last block is NOT constrained (it is dead). (wrappers) salsa.XORKeyStream is interpreted for input lengths 0, 1, 64, 65 and a shorter / equal / longer output: the portable build forwards (out, in, counter, key) to genericXORKeyStream; the amd64 build calls the assembly routine exactly once with (&out[0], &in[0], len(in), &counter[0], &key[0]), not at all for an empty input, and never with an output shorter than the input (a bounds check fails first). NOT decided: Salsa20/20, HSalsa20 and Salsa20/8 core values; the counter handling inside salsa20_amd64.s; agreement of assembly and portable paths.",
 		assumptions: []string{"salsa.core / salsa.HSalsa20 compute the specified functions", "the assembly routine increments the 64-bit counter like the portable loop (not analysable)"},
 	})
-	tech("C09", "flow-sensitive finite-domain interpretation of the nonce dispatch and of the byte-wise counter increment (counter bytes as tracked state) against the specification")
+	tech("C09", "flow-sensitive finite-domain interpretation of the nonce dispatch (nonce bytes as abstract identities), of the counter block given to every key-stream block generation (counter bytes as tracked state) and of the implementation wrappers, against the specification; values are identified by role (parameter index, type, provenance), not by name")
 }
 
 func runC09(c *Ctx) {
 	c09Dispatch(c)
 	c09Counter(c)
-	if f := c.fnOpt("salsa20/salsa", "XORKeyStream"); f != nil && len(f.Blocks) > 0 {
-		// either the amd64 wrapper or the noasm forwarder
-		gen := callsNamed(f, "salsa20/salsa.genericXORKeyStream")
-		asm := callsNamed(f, "salsa20/salsa.salsa2020XORKeyStream")
-		switch {
-		case len(gen) == 1:
-			a := gen[0].Common().Args
-			ok := a[0] == ssa.Value(f.Params[0]) && a[1] == ssa.Value(f.Params[1]) && a[2] == ssa.Value(f.Params[2]) && a[3] == ssa.Value(f.Params[3])
-			c.check(ok, "C09.wrapper", "salsa.XORKeyStream (portable build)", f, "forwards (out, in, counter, key)", "the portable wrapper does not forward its arguments in order")
-		case len(asm) == 1:
-			a := asm[0].Common().Args
-			first := func(v ssa.Value, p ssa.Value) bool {
-				ia, ok := v.(*ssa.IndexAddr)
-				if !ok || ia.X != p {
-					return false
-				}
-				k, isK := constInt(ia.Index)
-				return isK && k == 0
-			}
-			okN := false
-			if cv, isC := a[2].(*ssa.Convert); isC {
-				if cl, isL := cv.X.(*ssa.Call); isL && calleeName(&cl.Call) == "builtin:len" && cl.Call.Args[0] == ssa.Value(f.Params[1]) {
-					okN = true
-				}
-			}
-			ok := first(a[0], f.Params[0]) && first(a[1], f.Params[1]) && okN && first(a[3], f.Params[2]) && first(a[4], f.Params[3])
-			// empty input returns before &in[0]
-			e := newEnv()
-			e.bindLen(f, f.Params[1], 0)
-			_, _, blocks := e.reachableExits(f, nil)
-			ok = ok && !blocks[asm[0].Block()]
-			c.check(ok, "C09.wrapper", "salsa.XORKeyStream (amd64)", f, "(&out[0], &in[0], len(in), &counter[0], &key[0]); empty input returns first", "the assembly wrapper passes its arguments in the wrong order or indexes an empty input")
-		default:
-			c.fail("C09.wrapper", "salsa.XORKeyStream", f, "neither the portable nor the assembly implementation is called")
-		}
-	}
+	c09Wrapper(c)
 }
+
+// ---------------------------------------------------------------------------
+// nonce dispatch
 
 func c09Dispatch(c *Ctx) {
 	f := c.fn("salsa20", "XORKeyStream")
 	if f == nil {
 		return
 	}
-	outP, inP, nonceP, keyP := f.Params[0], f.Params[1], f.Params[2], f.Params[3]
-	var overlap []ssa.Value
-	for _, ci := range calls(f, func(n string) bool { return strings.HasSuffix(n, "alias.InexactOverlap") }) {
-		overlap = append(overlap, callValue(ci))
+	if len(f.Params) != 4 {
+		c.undecided("C09.nonce", "salsa20.XORKeyStream nonce dispatch", f, "unexpected signature")
+		return
 	}
+	outP, inP, nonceP := f.Params[0], f.Params[1], f.Params[2]
 	cases, bad := 0, ""
 	for _, nl := range []int64{0, 8, 12, 16, 24, 32} {
 		for _, n := range []int64{0, 1, 64} {
@@ -74,103 +43,91 @@ func c09Dispatch(c *Ctx) {
 				if n+dd < 0 || bad != "" {
 					continue
 				}
-				w := &pathWalker{env: newEnv(), lengths: true, maxSteps: 4000}
+				w := c09Walker(f, []string{"out", "in", "nonce", "key"}, 4000, nil)
 				w.env.bind(outP, n+dd)
 				w.env.bind(inP, n)
 				w.env.bind(nonceP, nl)
-				for _, v := range overlap {
-					w.env.bind(v, 0)
-				}
-				var evs []string
-				allocOfSlice := func(v ssa.Value) (string, int64, bool) {
-					sl, ok := v.(*ssa.Slice)
-					if !ok {
-						return "", 0, false
+				w.onLoad = func(w *pathWalker, u *ssa.UnOp) (int64, bool) {
+					// a single nonce byte read: nonce[i]
+					if ia, ok := u.X.(*ssa.IndexAddr); ok {
+						if r, o, isR := c09Role(w, ia.X); isR && r == "nonce" {
+							if k, okk := w.env.eval(ia.Index); okk {
+								return c09NonceSym + o + k, true
+							}
+						}
 					}
-					al, ok := sl.X.(*ssa.Alloc)
-					if !ok {
-						return "", 0, false
-					}
-					lo := int64(0)
-					if sl.Low != nil {
-						lo, _ = w.env.eval(sl.Low)
-					}
-					return al.Comment, lo, true
-				}
-				nonceSl := func(v ssa.Value) (int64, int64, bool) {
-					sl, ok := v.(*ssa.Slice)
-					if !ok || sl.X != ssa.Value(nonceP) {
-						return 0, 0, false
-					}
-					lo := int64(0)
-					if sl.Low != nil {
-						lo, _ = w.env.eval(sl.Low)
-					}
-					l, _ := w.env.eval(sl)
-					return lo, l, true
+					return 0, false
 				}
 				w.onCall = func(w *pathWalker, ci ssa.CallInstruction) string {
 					cc := ci.Common()
-					switch short(calleeName(cc)) {
-					case "builtin:copy":
-						dn, doff, ok1 := allocOfSlice(cc.Args[0])
-						so, sl, ok2 := nonceSl(cc.Args[1])
-						if ok1 && ok2 {
-							dl, _ := w.env.eval(cc.Args[0])
-							evs = append(evs, fmt.Sprintf("%s[%d:+%d]=nonce[%d:+%d]", dn, doff, min(dl, sl), so, min(dl, sl)))
+					name := short(calleeName(cc))
+					switch {
+					case strings.HasSuffix(name, "alias.InexactOverlap") || strings.HasSuffix(name, "alias.AnyOverlap"):
+						// the buffers of the modelled call do not overlap
+						if v := callValue(ci); v != nil {
+							w.env.bind(v, 0)
+						}
+					case name == "builtin:copy":
+						if p := c09Copy(w, cc); p != "" {
+							return "!" + p
+						}
+					case name == "salsa20/salsa.HSalsa20" && len(cc.Args) == 4:
+						src, okS := c09Read(w, c09Ptr(w, cc.Args[1]), 0, 16)
+						if !okS {
+							return "!the 16-byte input of HSalsa20 is not determined by the interpretation"
+						}
+						want := make([]int64, 16)
+						for i := range want {
+							want[i] = c09NonceSym + int64(i)
+						}
+						if d := c09Describe(src); d != c09Describe(want) {
+							return "!HSalsa20 is given " + d + ", specification " + c09Describe(want)
+						}
+						if r, _, isR := c09Role(w, cc.Args[2]); !isR || r != "key" {
+							return "!HSalsa20 is not keyed with the caller's key"
+						}
+						if g, isG := cc.Args[3].(*ssa.Global); !isG || g.Name() != "Sigma" || g.Pkg == nil || !strings.HasSuffix(g.Pkg.Pkg.Path(), "salsa20/salsa") {
+							return "!HSalsa20 is not given the constant salsa.Sigma"
+						}
+						if r, _, isR := c09Role(w, cc.Args[0]); isR {
+							return "!HSalsa20 writes its result into the caller's " + r
+						}
+						dst := c09Ptr(w, cc.Args[0])
+						if dst == "" {
+							return "!the location HSalsa20 writes the subkey to is not determined by the interpretation"
+						}
+						for i := int64(0); i < 32; i++ {
+							w.state[c09Key(dst, i)] = c09SubKeySym + i
+						}
+						return "H"
+					case name == "salsa20/salsa.XORKeyStream" && len(cc.Args) == 4:
+						if r, o, isR := c09Role(w, cc.Args[0]); !isR || r != "out" || o != 0 {
+							return "!salsa.XORKeyStream is not given the caller's output buffer from its first byte"
+						}
+						if l, ok := w.env.eval(cc.Args[0]); !ok || l < n {
+							return "!salsa.XORKeyStream is given an output buffer shorter than the input"
+						}
+						if r, o, isR := c09Role(w, cc.Args[1]); !isR || r != "in" || o != 0 {
+							return "!salsa.XORKeyStream is not given the caller's input from its first byte"
+						}
+						if l, ok := w.env.eval(cc.Args[1]); !ok || l != n {
+							return "!salsa.XORKeyStream is not given the whole input"
+						}
+						blk, okB := c09Read(w, c09Ptr(w, cc.Args[2]), 0, 16)
+						if !okB {
+							return "!the counter block given to salsa.XORKeyStream is not determined by the interpretation"
+						}
+						k := ""
+						if r, _, isR := c09Role(w, cc.Args[3]); isR {
+							k = "the caller's " + r
+						} else if kb, okK := c09Read(w, c09Ptr(w, cc.Args[3]), 0, 32); okK {
+							k = c09Describe(kb)
 						} else {
-							evs = append(evs, "copy?")
+							return "!the key given to salsa.XORKeyStream is not determined by the interpretation"
 						}
-					case "salsa20/salsa.HSalsa20":
-						name := func(v ssa.Value) string {
-							if al, ok := v.(*ssa.Alloc); ok {
-								return al.Comment
-							}
-							if v == ssa.Value(keyP) {
-								return "key"
-							}
-							if g, ok := v.(*ssa.Global); ok {
-								return g.Name()
-							}
-							return "?"
-						}
-						evs = append(evs, fmt.Sprintf("HSalsa20(%s,%s,%s,%s)", name(cc.Args[0]), name(cc.Args[1]), name(cc.Args[2]), name(cc.Args[3])))
-					case "salsa20/salsa.XORKeyStream":
-						k := "?"
-						switch x := cc.Args[3].(type) {
-						case *ssa.Phi:
-							// resolved by the walker: which incoming value
-							if n, ok := w.env.eval(x); ok {
-								k = fmt.Sprint(n)
-							}
-							_ = x
-							k = "phi"
-						default:
-							if cc.Args[3] == ssa.Value(keyP) {
-								k = "key"
-							} else if al, ok := cc.Args[3].(*ssa.Alloc); ok {
-								k = al.Comment
-							}
-						}
-						ctr := "?"
-						if al, ok := cc.Args[2].(*ssa.Alloc); ok {
-							ctr = al.Comment
-						}
-						okIO := cc.Args[0] == ssa.Value(outP) && cc.Args[1] == ssa.Value(inP)
-						evs = append(evs, fmt.Sprintf("salsa.XORKeyStream(io=%v,%s,%s)", okIO, ctr, k))
+						return "S:counter block " + c09Describe(blk) + ", key " + k
 					}
 					return ""
-				}
-				// which key reaches salsa.XORKeyStream: follow the phi
-				keyAt := ""
-				w.onPhi = func(w *pathWalker, ph *ssa.Phi, in ssa.Value) {
-					if ph.Comment == "key" {
-						if in == ssa.Value(keyP) {
-							keyAt = "key"
-						} else if al, ok := in.(*ssa.Alloc); ok {
-							keyAt = al.Comment
-						}
-					}
 				}
 				end := w.walk(f.Blocks[0], nil)
 				cases++
@@ -181,19 +138,38 @@ func c09Dispatch(c *Ctx) {
 					break
 				}
 				if wantPanic != (end == "panic") {
-					bad = fmt.Sprintf("%s: panics=%v", id, end == "panic")
+					if wantPanic {
+						bad = id + ": the call does not panic; specification: it panics (output shorter than the input, or a nonce that is neither 8 nor 24 bytes)"
+					} else {
+						bad = id + ": the call panics; specification: it is a valid call"
+					}
 					break
 				}
 				if wantPanic {
 					continue
 				}
-				got := strings.ReplaceAll(strings.Join(evs, " "), ",phi)", ","+keyAt+")")
-				want := "subNonce[0:+8]=nonce[0:+8] salsa.XORKeyStream(io=true,subNonce,key)"
+				want := "S:counter block nonce[0:8] | 8 zero bytes, key the caller's key"
 				if nl == 24 {
-					want = "hNonce[0:+16]=nonce[0:+16] HSalsa20(subKey,hNonce,key,Sigma) subNonce[0:+8]=nonce[16:+8] salsa.XORKeyStream(io=true,subNonce,subKey)"
+					want = "S:counter block nonce[16:24] | 8 zero bytes, key HSalsa20 output[0:32]"
 				}
-				if got != want {
-					bad = fmt.Sprintf("%s: code performs [%s], specification [%s]", id, got, want)
+				var got []string
+				for _, ev := range w.events {
+					switch {
+					case strings.HasPrefix(ev, "!") && bad == "":
+						bad = id + ": " + ev[1:]
+					case strings.HasPrefix(ev, "S:"):
+						got = append(got, ev)
+					}
+				}
+				if bad != "" {
+					break
+				}
+				if len(got) != 1 {
+					bad = fmt.Sprintf("%s: salsa.XORKeyStream is called %d times", id, len(got))
+				} else if got[0] != want {
+					bad = fmt.Sprintf("%s: code calls salsa.XORKeyStream with %s; specification: %s", id, got[0][2:], want[2:])
+				} else if w.oob || w.rootW().oob {
+					bad = id + ": a slice or index expression leaves its bounds"
 				}
 			}
 		}
@@ -201,12 +177,52 @@ func c09Dispatch(c *Ctx) {
 	c.check(bad == "" && cases > 40, "C09.nonce", "salsa20.XORKeyStream nonce dispatch", f, fmt.Sprintf("%d (nonce, input, output length) cases", cases), bad)
 }
 
+// ---------------------------------------------------------------------------
+// 64-bit block counter of the portable implementation
+
+// c09BlockFns: the Salsa20 block functions of the package by signature
+// (*[64]byte, *[16]byte, *[32]byte, *[16]byte) — key-stream block out, counter
+// block in, key, constants.
+func c09BlockFns(c *Ctx, except *ssa.Function) map[*ssa.Function]bool {
+	res := map[*ssa.Function]bool{}
+	for _, g := range c.funcsOfPkg("salsa20/salsa") {
+		if g == except || len(g.Blocks) == 0 || len(g.Params) != 4 || g.Signature.Results().Len() != 0 || g.Signature.Recv() != nil {
+			continue
+		}
+		ok := true
+		for i, want := range []int64{64, 16, 32, 16} {
+			if n, isB := c09ByteArrayPtr(g.Params[i].Type()); !isB || n != want {
+				ok = false
+			}
+		}
+		if ok {
+			res[g] = true
+		}
+	}
+	return res
+}
+
 func c09Counter(c *Ctx) {
 	f := c.fn("salsa20/salsa", "genericXORKeyStream")
 	if f == nil {
 		return
 	}
+	const rule, construct = "C09.counter", "genericXORKeyStream 64-bit counter"
+	if len(f.Params) != 4 {
+		c.undecided(rule, construct, f, "unexpected signature")
+		return
+	}
+	blockFns := c09BlockFns(c, f)
+	if len(blockFns) == 0 {
+		c.undecided(rule, construct, f, "the package has no Salsa20 block function (*[64]byte, *[16]byte, *[32]byte, *[16]byte)")
+		return
+	}
+	opaque := map[string]bool{}
+	for g := range blockFns {
+		opaque[g.Name()] = true
+	}
 	outP, inP := f.Params[0], f.Params[1]
+	cname := f.Params[2].Name()
 	inits := []uint64{0, 0xff, 0xffff, 1<<32 - 1, 1 << 32, 1<<40 - 1, 1<<64 - 2, 1<<64 - 1}
 	cases, bad := 0, ""
 	for _, init := range inits {
@@ -216,52 +232,78 @@ func c09Counter(c *Ctx) {
 					continue
 				}
 				n := 64*full + tail
-				w := &pathWalker{env: newEnv(), lengths: true, maxSteps: 60000, opaque: map[string]bool{"core": true}}
+				w := c09Walker(f, []string{"out", "in", "counter", "key"}, 60000, opaque)
 				w.env.bind(outP, n)
 				w.env.bind(inP, n)
-				w.state = map[string]int64{}
+				var orig [16]int64
 				for i := 0; i < 8; i++ {
-					w.state[fmt.Sprintf("counterCopy[%d]", i)] = int64(0xA0 + i) // nonce bytes: must stay
-					w.state[fmt.Sprintf("counterCopy[%d]", 8+i)] = int64(byte(init >> (8 * i)))
+					orig[i] = int64(0xA0 + i) // nonce bytes: must stay
+					orig[8+i] = int64(byte(init >> (8 * i)))
 				}
-				snapshot := func() uint64 {
-					var v uint64
-					for i := 0; i < 8; i++ {
-						v |= uint64(byte(w.state[fmt.Sprintf("counterCopy[%d]", 8+i)])) << (8 * i)
-					}
-					return v
+				for i, v := range orig {
+					w.state[c09Key(cname, int64(i))] = v
 				}
-				var blocks []uint64
-				var runs []int64 // output bytes written after each key-stream block was generated
-				xors := int64(0)
-				problem := ""
 				w.onCall = func(w *pathWalker, ci ssa.CallInstruction) string {
 					cc := ci.Common()
-					if short(calleeName(cc)) == "salsa20/salsa.core" {
-						al, ok := cc.Args[1].(*ssa.Alloc)
-						if !ok || al.Comment != "counterCopy" {
-							problem = "core is not given the local counter copy"
+					if callee := cc.StaticCallee(); callee != nil && blockFns[callee] {
+						blk, ok := c09Read(w, c09Ptr(w, cc.Args[1]), 0, 16)
+						if !ok {
+							return "!the counter block given to " + callee.Name() + " is not determined by the interpretation"
 						}
-						blocks = append(blocks, snapshot())
-						runs = append(runs, 0)
+						if r, o, isR := c09Role(w, cc.Args[0]); !isR || r != "ks" || o != 0 {
+							return "!" + callee.Name() + " does not write a local 64-byte key-stream buffer"
+						}
+						if r, _, isR := c09Role(w, cc.Args[2]); !isR || r != "key" {
+							return "!" + callee.Name() + " is not given the caller's key"
+						}
+						var sb strings.Builder
+						sb.WriteString("B")
+						for _, v := range blk {
+							fmt.Fprintf(&sb, ":%d", v)
+						}
+						return sb.String()
+					}
+					switch short(calleeName(cc)) {
+					case "builtin:copy":
+						if p := c09Copy(w, cc); p != "" {
+							return "!" + p
+						}
+					case "crypto/subtle.XORBytes":
+						return c09XORBytes(w, ci)
 					}
 					return ""
 				}
 				w.onStore = func(w *pathWalker, st *ssa.Store) string {
-					if ia, ok := st.Addr.(*ssa.IndexAddr); ok {
-						if w.valueIsParamDerived(ia.X, outP) {
-							xors++
-							if len(runs) == 0 {
-								problem = "output bytes are produced before the first key-stream block is generated"
-							} else {
-								runs[len(runs)-1]++
-							}
-						}
-						if p := w.path(ia.X); strings.HasPrefix(p, "counter") && !strings.HasPrefix(p, "counterCopy") {
-							problem = "the caller's counter array is written"
-						}
+					c09StoreResult(w, st)
+					ia, ok := st.Addr.(*ssa.IndexAddr)
+					if !ok {
+						return ""
 					}
-					return ""
+					r, o, isR := c09Role(w, ia.X)
+					if !isR || r != "out" {
+						return ""
+					}
+					k, okk := w.env.eval(ia.Index)
+					if !okk {
+						return "!an output byte is written at a position the interpretation cannot determine"
+					}
+					pos := o + k
+					bo, isX := st.Val.(*ssa.BinOp)
+					if !isX || bo.Op != token.XOR {
+						return fmt.Sprintf("!output byte %d is not the XOR of an input byte and a key-stream byte", pos)
+					}
+					ra, pa, oka := c09ByteSrc(w, bo.X)
+					rb, pb, okb := c09ByteSrc(w, bo.Y)
+					if oka && okb && ra == "ks" && rb == "in" {
+						ra, pa, rb, pb = rb, pb, ra, pa
+					}
+					if !oka || !okb || ra != "in" || rb != "ks" {
+						return fmt.Sprintf("!output byte %d is not the XOR of an input byte and a key-stream byte", pos)
+					}
+					if pa != pos || pb != pos%64 {
+						return fmt.Sprintf("!output byte %d is input byte %d XOR key-stream byte %d, specification: input byte %d XOR key-stream byte %d", pos, pa, pb, pos, pos%64)
+					}
+					return fmt.Sprintf("W:%d", pos)
 				}
 				end := w.walk(f.Blocks[0], nil)
 				cases++
@@ -270,74 +312,256 @@ func c09Counter(c *Ctx) {
 					bad = id + ": evaluation ended with " + end + " " + w.why
 					continue
 				}
+				set := func(s string) {
+					if bad == "" {
+						bad = id + ": " + s
+					}
+				}
 				wantBlocks := full
 				if tail > 0 {
 					wantBlocks++
 				}
-				if int64(len(blocks)) != wantBlocks {
-					bad = fmt.Sprintf("%s: %d key-stream blocks generated, %d needed", id, len(blocks), wantBlocks)
-					continue
-				}
-				for j, b := range blocks {
-					if b != init+uint64(j) {
-						bad = fmt.Sprintf("%s: block %d is generated with counter %#x, expected %#x (64-bit little-endian carry)", id, j, b, init+uint64(j))
+				j := int64(0) // key-stream blocks generated so far
+				written := map[int64]bool{}
+				for _, ev := range w.events {
+					switch {
+					case strings.HasPrefix(ev, "!"):
+						set(ev[1:])
+					case strings.HasPrefix(ev, "B:"):
+						var blk [16]int64
+						fs := strings.Split(ev[2:], ":")
+						for i := range blk {
+							fmt.Sscan(fs[i], &blk[i])
+						}
+						var ctr uint64
+						for i := 0; i < 8; i++ {
+							if blk[i] != orig[i] {
+								set(fmt.Sprintf("block %d is generated with a modified nonce half of the counter block", j))
+							}
+							ctr |= uint64(byte(blk[8+i])) << (8 * i)
+						}
+						if ctr != init+uint64(j) {
+							set(fmt.Sprintf("block %d is generated with counter %#x, expected %#x (64-bit little-endian carry)", j, ctr, init+uint64(j)))
+						}
+						j++
+					case strings.HasPrefix(ev, "W:"):
+						var pos int64
+						fmt.Sscan(ev[2:], &pos)
+						switch {
+						case j == 0:
+							set("output bytes are produced before the first key-stream block is generated")
+						case pos/64 != j-1:
+							set(fmt.Sprintf("output byte %d is produced while key-stream block %d is the current one, expected block %d (each block must be generated before it is used)", pos, j-1, pos/64))
+						case written[pos]:
+							set(fmt.Sprintf("output byte %d is written twice", pos))
+						}
+						written[pos] = true
 					}
 				}
-				if got := snapshot(); got != init+uint64(full) {
-					bad = fmt.Sprintf("%s: counter after the call %#x, expected %#x", id, got, init+uint64(full))
+				if j != wantBlocks {
+					set(fmt.Sprintf("%d key-stream blocks generated, %d needed", j, wantBlocks))
 				}
-				for i := 0; i < 8; i++ {
-					if w.state[fmt.Sprintf("counterCopy[%d]", i)] != int64(0xA0+i) {
-						bad = id + ": the nonce half of the counter block is modified"
+				if int64(len(written)) != n {
+					set(fmt.Sprintf("%d output bytes written, %d expected", len(written), n))
+				}
+				for i, v := range orig {
+					if got, tracked := w.state[c09Key(cname, int64(i))]; !tracked || got != v {
+						set("the caller's counter array is written")
 					}
 				}
-				if xors != n {
-					bad = fmt.Sprintf("%s: %d output bytes written, %d expected", id, xors, n)
-				}
-				for j, r := range runs {
-					wantRun := int64(64)
-					if int64(j) == full {
-						wantRun = tail
-					}
-					if r != wantRun {
-						bad = fmt.Sprintf("%s: %d output bytes are produced from key-stream block %d, expected %d (each block must be generated before it is used)", id, r, j, wantRun)
-					}
-				}
-				if problem != "" {
-					bad = id + ": " + problem
-				}
-				if w.oob {
-					bad = id + ": a slice expression leaves its bounds"
+				if w.oob || w.rootW().oob {
+					set("a slice or index expression leaves its bounds")
 				}
 			}
 		}
 	}
-	c.check(bad == "" && cases == len(inits)*8, "C09.counter", "genericXORKeyStream 64-bit counter", f, fmt.Sprintf("%d (starting counter, full blocks, tail) cases incl. every carry chain boundary", cases), bad)
+	c.check(bad == "" && cases == len(inits)*8, rule, construct, f, fmt.Sprintf("%d (starting counter, full blocks, tail) cases incl. every carry chain boundary", cases), bad)
 }
 
-// valueIsParamDerived: v is the parameter p or a reslice / loop-carried phi of it.
-func (w *pathWalker) valueIsParamDerived(v ssa.Value, p ssa.Value) bool {
-	seen := map[ssa.Value]bool{}
-	var rec func(v ssa.Value, d int) bool
-	rec = func(v ssa.Value, d int) bool {
-		if v == p {
-			return true
-		}
-		if seen[v] || d > 12 {
-			return false
-		}
-		seen[v] = true
-		switch x := v.(type) {
-		case *ssa.Slice:
-			return rec(x.X, d+1)
-		case *ssa.Phi:
-			for _, e := range x.Edges {
-				if rec(e, d+1) {
-					return true
+// c09XORBytes models n = subtle.XORBytes(dst, x, y) on the output buffer: one
+// "W:" event per byte when dst[i] = in[pos+i] ^ keystream[(pos+i) mod 64].
+func c09XORBytes(w *pathWalker, ci ssa.CallInstruction) string {
+	cc := ci.Common()
+	if len(cc.Args) != 3 {
+		return ""
+	}
+	r, pos, isR := c09Role(w, cc.Args[0])
+	if !isR || r != "out" {
+		return ""
+	}
+	dl, ok0 := w.env.eval(cc.Args[0])
+	xl, ok1 := w.env.eval(cc.Args[1])
+	yl, ok2 := w.env.eval(cc.Args[2])
+	if !ok0 || !ok1 || !ok2 {
+		return "!subtle.XORBytes on the output with lengths the interpretation cannot determine"
+	}
+	n := min(xl, yl)
+	if v := callValue(ci); v != nil {
+		w.env.bind(v, n)
+	}
+	if dl < n {
+		return "!subtle.XORBytes panics: destination shorter than the operands"
+	}
+	ra, pa, oka := c09Role(w, cc.Args[1])
+	rb, pb, okb := c09Role(w, cc.Args[2])
+	if oka && okb && ra == "ks" && rb == "in" {
+		ra, pa, rb, pb = rb, pb, ra, pa
+	}
+	if !oka || !okb || ra != "in" || rb != "ks" {
+		return fmt.Sprintf("!output bytes from %d on are not the XOR of input bytes and key-stream bytes", pos)
+	}
+	if pa != pos || pb != pos%64 || pb+n > 64 {
+		return fmt.Sprintf("!output bytes from %d on are input bytes from %d on XOR key-stream bytes from %d on, specification: input bytes from %d on XOR key-stream bytes from %d on", pos, pa, pb, pos, pos%64)
+	}
+	for i := int64(0); i < n; i++ {
+		w.events = append(w.events, fmt.Sprintf("W:%d", pos+i))
+	}
+	return ""
+}
+
+// ---------------------------------------------------------------------------
+// salsa.XORKeyStream: portable forwarder / amd64 assembly wrapper
+
+func c09Wrapper(c *Ctx) {
+	f := c.fnOpt("salsa20/salsa", "XORKeyStream")
+	if f == nil || len(f.Blocks) == 0 {
+		return
+	}
+	const rule = "C09.wrapper"
+	if len(f.Params) != 4 {
+		c.undecided(rule, "salsa.XORKeyStream", f, "unexpected signature")
+		return
+	}
+	gen := c.fnOpt("salsa20/salsa", "genericXORKeyStream")
+	opaque := map[string]bool{}
+	if gen != nil {
+		opaque[gen.Name()] = true
+	}
+	outP, inP := f.Params[0], f.Params[1]
+	bad, cases, nGen, nAsm, sawAsm := "", 0, 0, 0, false
+	for _, n := range []int64{0, 1, 64, 65} {
+		for _, dd := range []int64{-1, 0, 3} {
+			if n+dd < 0 || bad != "" {
+				continue
+			}
+			w := c09Walker(f, []string{"out", "in", "counter", "key"}, 4000, opaque)
+			w.env.bind(outP, n+dd)
+			w.env.bind(inP, n)
+			first := func(w *pathWalker, v ssa.Value, role string) bool {
+				ia, ok := stripConv(v).(*ssa.IndexAddr)
+				if !ok {
+					return false
+				}
+				r, o, isR := c09Role(w, ia.X)
+				k, okk := w.env.eval(ia.Index)
+				return isR && okk && r == role && o+k == 0
+			}
+			whole := func(w *pathWalker, v ssa.Value, role string) bool {
+				r, o, isR := c09Role(w, v)
+				return isR && r == role && o == 0
+			}
+			w.onCall = func(w *pathWalker, ci ssa.CallInstruction) string {
+				cc := ci.Common()
+				callee := cc.StaticCallee()
+				switch {
+				case callee != nil && callee == gen && len(cc.Args) == 4:
+					lo, ok0 := w.env.eval(cc.Args[0])
+					li, ok1 := w.env.eval(cc.Args[1])
+					if !whole(w, cc.Args[0], "out") || !whole(w, cc.Args[1], "in") || !whole(w, cc.Args[2], "counter") || !whole(w, cc.Args[3], "key") ||
+						!ok0 || !ok1 || li != n || lo != n+dd {
+						return "!the portable implementation is not given (out, in, counter, key)"
+					}
+					return "G"
+				case callee != nil && callee.Pkg == f.Pkg && len(callee.Blocks) == 0 && len(cc.Args) == 5:
+					sawAsm = true
+					if n+dd < n && !(w.oob || w.rootW().oob || w.beyondLen || w.rootW().beyondLen) {
+						return "!the assembly routine is reached with an output shorter than the input"
+					}
+					cnt, okc := w.env.eval(cc.Args[2])
+					if !first(w, cc.Args[0], "out") || !first(w, cc.Args[1], "in") || !okc || cnt != n || !first(w, cc.Args[3], "counter") || !first(w, cc.Args[4], "key") {
+						return "!the assembly routine is not given (&out[0], &in[0], len(in), &counter[0], &key[0])"
+					}
+					return "A"
+				case short(calleeName(cc)) == "builtin:copy":
+					if p := c09Copy(w, cc); p != "" {
+						return "!" + p
+					}
+				}
+				return ""
+			}
+			end := w.walk(f.Blocks[0], nil)
+			cases++
+			id := fmt.Sprintf("len(in)=%d len(out)=%d", n, n+dd)
+			set := func(s string) {
+				if bad == "" {
+					bad = id + ": " + s
 				}
 			}
+			if end == "undecided" {
+				set(w.why)
+				continue
+			}
+			g, a := 0, 0
+			for _, ev := range w.events {
+				switch {
+				case strings.HasPrefix(ev, "!"):
+					set(ev[1:])
+				case ev == "G":
+					g++
+				case ev == "A":
+					a++
+				}
+			}
+			nGen += g
+			nAsm += a
+			oob := w.oob || w.rootW().oob
+			switch {
+			case n == 0 && (a != 0 || g > 1 || oob || end != "return"):
+				set("an empty input does not return before the implementation indexes it")
+			case n > 0 && dd >= 0 && (g+a != 1 || end != "return"):
+				set(fmt.Sprintf("neither the portable nor the assembly implementation is called exactly once (%d and %d calls)", g, a))
+			case n > 0 && dd >= 0 && oob:
+				set("a slice or index expression leaves its bounds")
+			}
 		}
-		return false
 	}
-	return rec(v, 0)
+	construct, okDetail := "salsa.XORKeyStream (portable build)", "forwards (out, in, counter, key)"
+	if nAsm > 0 || sawAsm {
+		construct, okDetail = "salsa.XORKeyStream (amd64)", "(&out[0], &in[0], len(in), &counter[0], &key[0]); empty input returns first; a short output fails a bounds check first"
+	}
+	if bad == "" && nGen+nAsm == 0 {
+		bad = "neither the portable nor the assembly implementation is called"
+	}
+	c.check(bad == "" && cases >= 11, rule, construct, f, okDetail, bad)
+}
+
+// c09Describe renders tracked bytes as runs: nonce[a:b], HSalsa20 output[a:b],
+// n zero bytes, or a literal byte.
+func c09Describe(vals []int64) string {
+	var parts []string
+	for i := 0; i < len(vals); {
+		v := vals[i]
+		j := i + 1
+		switch {
+		case v >= c09SubKeySym && v < c09SubKeySym+0x100:
+			for j < len(vals) && vals[j] == vals[j-1]+1 && vals[j] < c09SubKeySym+0x100 {
+				j++
+			}
+			parts = append(parts, fmt.Sprintf("HSalsa20 output[%d:%d]", v-c09SubKeySym, v-c09SubKeySym+int64(j-i)))
+		case v >= c09NonceSym && v < c09NonceSym+0x100:
+			for j < len(vals) && vals[j] == vals[j-1]+1 && vals[j] < c09NonceSym+0x100 {
+				j++
+			}
+			parts = append(parts, fmt.Sprintf("nonce[%d:%d]", v-c09NonceSym, v-c09NonceSym+int64(j-i)))
+		case v == 0:
+			for j < len(vals) && vals[j] == 0 {
+				j++
+			}
+			parts = append(parts, fmt.Sprintf("%d zero bytes", j-i))
+		default:
+			parts = append(parts, fmt.Sprintf("%#x", v))
+		}
+		i = j
+	}
+	return strings.Join(parts, " | ")
 }
